@@ -79,6 +79,16 @@ def check_stoch(ck, text, ast, dump, where):
         ck.fail("descriptor-numbering", inp, f"descriptor numbers {nums}")
 
 
+# a bond order written on the LEFT TERMINAL of an object whose prefix / connector has no descriptor of its own: the descriptor the library
+# inserts at the end of that token prescribes this order (text, [(element index, expected order of the token's last descriptor)])
+ORDER_TERMINAL = [
+    ("C{=[$] =[$]CC=[$]; =[$]O []}|uniform(50, 60)|", [(0, 2)]),
+    ("CC{#[$] #[$]C[$], [$]CC#[$]; #[$]N, [$]Cl []}|uniform(40, 120)|", [(0, 3)]),
+    ("C{[$] [$]CC[$] [$]}|uniform(30, 60)|N{=[$] =[$]CC=[$]; =[$]O []}|uniform(50, 90)|", [(0, 1), (2, 2)]),
+    ("O{=[<] =[<]CC=[>], =[<]C(C)C=[>]; =[>]S []}|gauss(120, 30)|", [(0, 2)]),
+]
+
+
 def main():
     ck = Check("C02")
     ck.do_build()
@@ -95,6 +105,18 @@ def main():
     for s in parsecases.corpus_strings():
         cases.append(("mol", s, None))
         cases.append(("system", s, None))
+    for s, want in ORDER_TERMINAL:
+        cases.append(("mol", s, None))
+        dump, err = impl_parse("mol", s)
+        inp = {"kind": "mol", "text": s}
+        if err is not None:
+            ck.fail("valid-string-rejected", inp, f"{type(err).__name__}: {err}")
+            continue
+        for k, o in want:
+            el = dump["elems"][k] if k < len(dump["elems"]) else None
+            got = el["v"]["descs"][-1]["o"] if el is not None and el["k"] == "tok" and el["v"]["descs"] else None
+            if got != o:
+                ck.fail("inserted-descriptor-order", inp, f"element {k}: the descriptor towards the next object prescribes bond order {got}; its left terminal is written with order {o}")
     ops = [parse_op(k, s) for k, s, _ in cases]
     try:
         outs = ck.driver.run(ops)
